@@ -17,7 +17,7 @@ use crate::util::{guard, hash64, Ctx};
 pub fn run(ctx: &mut Ctx) {
     let part = ctx.part.clone();
     if part.is_empty() || part == "small" { small(ctx); }
-    if part.is_empty() || part == "boundary" { boundary(ctx); }
+    if part.is_empty() || part == "boundary" { boundary(ctx); word_masks(ctx); }
     if part.is_empty() || part == "regime" { regime(ctx); }
 }
 
@@ -147,6 +147,47 @@ fn boundary(ctx: &mut Ctx) {
                     ctx.case(hash64(&[2, n as u64, di as u64, si as u64, rep as u64, crate::util::hash64(&model.ones.iter().map(|x| *x as u64).collect::<Vec<u64>>())]), true);
                     ctx.sample(|| format!("boundary: len={} density={:?} shape={:?} ones={} route={} idx_args={} rank_args={}", n, d, s, ones, route, args.idx.len(), args.ranks.len()));
                 }
+            }
+        }
+    }
+}
+
+// Vectors whose set (or unset) bits sit only in chosen words of each 512-bit block: the rank samples store relative
+// ranks for 7 of the 8 words, so "only the last word", "only the first word", ... are regimes of their own.
+fn word_masks(ctx: &mut Ctx) {
+    let opts = QOpts { iter_limit: 70000, ..QOpts::default() };
+    let lengths = [512usize, 513, 1024, 1536, 4096, 4097, 4159];
+    let mut index: u64 = 1 << 20;
+    for &n in lengths.iter() {
+        for mask_kind in 0..12usize {
+            for invert in [false, true] {
+                index += 1;
+                if !ctx.mine(index) { continue; }
+                if !ctx.begin_case() { continue; }
+                let mut rng = ctx.rng(0xB7 + index);
+                let mut bits = vec![false; n];
+                let blocks = (n + 511) / 512;
+                for b in 0..blocks {
+                    // Which words of this block may hold set bits.
+                    let mask: u8 = match mask_kind { k if k < 8 => 1u8 << k, 8 => 0b1000_0001, 9 => 0b0100_0000 | (1 << (b % 8)) as u8, 10 => rng.next_u64() as u8, _ => if b % 2 == 0 { 0 } else { 0x80 } };
+                    for w in 0..8 {
+                        if mask & (1 << w) == 0 { continue; }
+                        let dense = rng.chance(1, 3);
+                        for j in 0..64 {
+                            let p = b * 512 + w * 64 + j;
+                            if p < n && (if dense { rng.chance(7, 8) } else { rng.chance(1, 12) }) { bits[p] = true; }
+                        }
+                    }
+                }
+                if invert { for x in bits.iter_mut() { *x = !*x; } }
+                let model = SetModel::from_bits(&bits);
+                let mut args = QArgs::all(n, model.count_ones(), model.count_zeros(), 3);
+                args.idx.extend(QArgs::extremes());
+                let args = args.dedup();
+                let bv = guard(|| mk::bv_set_bit(&bits));
+                check_one(ctx, "raw.set_bit", bv, &model, &args, &opts);
+                ctx.case(hash64(&[4, n as u64, mask_kind as u64, invert as u64, hash64(&model.ones.iter().map(|x| *x as u64).collect::<Vec<u64>>())]), true);
+                ctx.sample(|| format!("word_masks: len={} set bits only in words selected by mask kind {} of each 512-bit block (inverted={}), every argument", n, mask_kind, invert));
             }
         }
     }
